@@ -6,7 +6,7 @@ of the save / load / constructor bodies (G2) on every check. The byte-level seri
 cv2.imencode / imdecode / imwrite, PNG / TIFF codecs) are outside the model; the round trips through them are
 observed by the oracle of `vt/checks/c18.py`.
 -/
-import DarsiaModel.Persist
+import DarsiaProofs.Persist
 import DarsiaGen.PersistTables
 namespace Darsia.C18
 open Darsia Darsia.Persist
@@ -26,6 +26,45 @@ theorem metadata_sound :
 `metadata()` therefore has the same keys (in particular `color_space` of optical images survives). -/
 theorem npz_class_roundtrip :
     ∀ c ∈ Cls.all, Gen.npzClass c = c ∧ Gen.metaKeys (Gen.npzClass c) = Gen.metaKeys c := by decide
+
+/-- the generated key lists have the shape the round-trip argument needs: the ten base keys in every class,
+nothing but those and `color_space`, `color_space` exactly for optical images, `Image` and `ScalarImage` alike -/
+theorem keys_ok : KeysOK Gen.metaKeys :=
+  ⟨by decide, by decide, by decide, by decide⟩
+
+/-- the class decision of `imread_from_npz` (dictionary has `color_space` → optical; `scalar` true → scalar image;
+else image), evaluated on what `metadata()` of each class contains, is the class the running reader builds (G1) -/
+theorem npz_dispatch_matches_reader :
+    ∀ c ∈ Cls.all, npzDispatch (decide (Key.color_space ∈ Gen.metaKeys c)) (decide (c = .scalarImage)) = Gen.npzClass c := by
+  decide
+
+/-- **Every constructed image satisfies the invariant** the round trip relies on (relative time is the given one
+or the one derived from the dates; the flags forced by `ScalarImage` / `OpticalImage`; upper-case colour space). -/
+theorem constructor_establishes_inv {V : Type} (S : Sem V) (ok : S.OK) (c : Cls) (kw : Kw V)
+    (hb : ∀ v, kw .scalar = some v → v = S.tru ∨ v = S.fls) : Inv S c (construct S c kw) :=
+  construct_inv S ok c kw hb
+
+/-- **Metadata round trip** `metadata(imread(save(img))) = metadata(img)`, for every image class, every value
+domain and every attribute assignment satisfying the constructor's invariant: `Image.save` stores `metadata()`
+(keys: generated table), `imread_from_npz` picks the class from the stored dictionary and passes it as keyword
+arguments, the constructor re-derives the attributes — they all come back, key by key; the class is the saved one
+(a plain `Image` with `scalar=True` comes back as `ScalarImage`, same keys). The only external contract left is
+that np.savez / pickle return each stored *value* unchanged. -/
+theorem npz_roundtrip_metadata {V : Type} (S : Sem V) (ok : S.OK) (c : Cls) (hc : c ∈ Cls.all) (a : Key → V)
+    (inv : Inv S c a) :
+    ((c = .image ∧ a .scalar = S.tru → (reload S (metadataOf Gen.metaKeys c a)).1 = .scalarImage) ∧
+     (¬ (c = .image ∧ a .scalar = S.tru) → (reload S (metadataOf Gen.metaKeys c a)).1 = c)) ∧
+    metadataOf Gen.metaKeys (reload S (metadataOf Gen.metaKeys c a)).1 (reload S (metadataOf Gen.metaKeys c a)).2 =
+      metadataOf Gen.metaKeys c a :=
+  roundtrip S ok Gen.metaKeys keys_ok c hc a inv
+
+/-- in particular a saved image that came out of a constructor: save → imread → save stores the same dictionary -/
+theorem npz_roundtrip_constructed {V : Type} (S : Sem V) (ok : S.OK) (c : Cls) (hc : c ∈ Cls.all) (kw : Kw V)
+    (hb : ∀ v, kw .scalar = some v → v = S.tru ∨ v = S.fls) :
+    let a := construct S c kw
+    metadataOf Gen.metaKeys (reload S (metadataOf Gen.metaKeys c a)).1 (reload S (metadataOf Gen.metaKeys c a)).2 =
+      metadataOf Gen.metaKeys c a :=
+  (roundtrip S ok Gen.metaKeys keys_ok c hc _ (construct_inv S ok c kw hb)).2
 
 /-- **kind rule** of `imread_from_bytes` as tabulated from the running code: grey and single-channel data give
 scalar images, three channels an optical image, other channel counts are rejected. -/
@@ -73,6 +112,18 @@ theorem savable_writes_class_name_partial :
 /-- **fields**: whatever a correction's `load` reads from the file was written by its `save`. -/
 theorem fields_saved_superset_loaded :
     ∀ c ∈ Gen.Corr.all, ∀ f ∈ Gen.loaded c, f ∈ Gen.saved c := by decide
+
+/-- non-vacuity: a value domain with well-behaved helpers exists (numbers: 0 = None, 1 = True, 9 = False, ...) and an
+image built by the optical constructor from it satisfies the invariant -/
+def natSem : Sem Nat :=
+  { none := 0, two := 2, ij := 7, tru := 1, fls := 9, rgb := 5, isNone := (· == 0), truthy := (· == 1), up := id,
+    defaultIndexing := id, defaultDims := id, applyHWD := fun d h w z => match h, w, z with | none, none, none => d | _, _, _ => d + 1,
+    defaultOrigin := fun a _ _ => a, defaultDate := fun _ => 0, defaultRef := id, deriveTime := fun _ d r => d - r }
+
+example : natSem.OK := ⟨rfl, rfl, fun _ => rfl, fun _ => rfl⟩
+example : (reload natSem (metadataOf Gen.metaKeys .opticalImage
+    (construct natSem .opticalImage (fun k => if k = .date then some 40 else if k = .color_space then some 6 else none)))).1
+    = .opticalImage := by decide
 
 /-- non-vacuity: the tables are populated -/
 example : (Gen.consumed .opticalImage).length ≥ 10 ∧ (Gen.metaKeys .image).length ≥ 8 ∧ Gen.Corr.all.length ≥ 5 ∧
